@@ -5,6 +5,7 @@ import (
 	"strings"
 	"time"
 
+	"github.com/emersion/go-imap/v2"
 	"github.com/emersion/go-imap/v2/imapclient"
 	"verif.local/simrt"
 	"verif.local/simrt/simnet"
@@ -51,8 +52,134 @@ func genCallerOps(t *simrt.Tape, n int) []cop {
 	return ops
 }
 
+// runC13Greeting is the second scenario class: callers use the client from the moment it exists, while the
+// greeting (with or without a CAPABILITY code) is still in flight. Every call must return.
+func runC13Greeting(r *R) {
+	t := r.P
+	ncallers := 2 + t.Choose(5)
+	greetCaps := t.Choose(2) == 0
+	netMode := t.Choose(3)
+	var plans [][]int
+	for i := 0; i < ncallers; i++ {
+		var p []int
+		for j, n := 0, 1+t.Choose(4); j < n; j++ {
+			p = append(p, t.Choose(7))
+		}
+		plans = append(plans, p)
+	}
+	cfg := r.SchedConfig()
+	if cfg.SwitchPermille < 100 {
+		cfg.SwitchPermille = 100 + 100*t.Choose(5)
+	}
+	returned := 0
+	r.Sim(cfg, func() {
+		cc, sc := r.Net.Pair("cli", "srv")
+		switch netMode {
+		case 1:
+			sc.SetSegMode(2)
+		case 2:
+			cc.SetShortReads(true)
+		}
+		srv := newScriptSrv(r, sc)
+		srv.timeout = 2 * time.Hour
+		srvDone := make(chan struct{})
+		simrt.GoTask("server", func() {
+			defer close(srvDone)
+			defer sc.Close()
+			capLine := "IMAP4rev1 ENABLE ESEARCH UIDPLUS"
+			if greetCaps {
+				srv.send("* OK [CAPABILITY " + capLine + "] ready")
+			} else {
+				srv.send("* OK hello")
+			}
+			for {
+				c, ok := srv.readCommand()
+				if !ok {
+					return
+				}
+				switch c.Name {
+				case "CAPABILITY":
+					srv.send("* CAPABILITY "+capLine, c.Tag+" OK done")
+				case "SEARCH":
+					srv.send("* SEARCH 1 2", c.Tag+" OK done")
+				case "LOGOUT":
+					srv.send("* BYE bye", c.Tag+" OK bye")
+					return
+				default:
+					srv.send(c.Tag + " OK done")
+				}
+			}
+		})
+		c := imapclient.New(cc, nil)
+		var dones []chan struct{}
+		counts := make([]int, ncallers) // one slot per caller task
+		for i := 0; i < ncallers; i++ {
+			i := i
+			d := make(chan struct{})
+			dones = append(dones, d)
+			simrt.GoTask(fmt.Sprintf("caller%d", i), func() {
+				defer close(d)
+				for _, k := range plans[i] {
+					switch k {
+					case 0:
+						_ = c.Caps()
+					case 1:
+						_ = c.WaitGreeting()
+					case 2:
+						_ = c.State()
+					case 3:
+						_ = c.Noop().Wait()
+					case 4:
+						_, _ = c.Capability().Wait()
+					case 5:
+						_, _ = c.Search(&imap.SearchCriteria{Text: []string{"x"}}, nil).Wait()
+					default:
+						_ = c.Mailbox()
+					}
+					counts[i]++
+				}
+			})
+		}
+		for _, d := range dones {
+			waitOrTimeout(d, 6*time.Hour)
+		}
+		c.Close()
+		waitOrTimeout(srvDone, time.Hour)
+		for _, n := range counts {
+			returned += n
+		}
+	})
+	if r.Res.Infra != "" {
+		return
+	}
+	r.Nontrivial = returned >= 2
+	r.Probe("greeting_race_scenario")
+	res := r.Res
+	var hung []string
+	for _, w := range res.Alive {
+		if w.Task {
+			where := normFunc(repoFrame(w.Funcs))
+			if where == "" {
+				where = "harness:" + w.Name
+			}
+			hung = append(hung, where)
+		}
+	}
+	if len(hung) > 0 {
+		sortStrings(hung)
+		r.Violate("hang", strings.Join(dropHarness(uniq(hung)), ","), "calls made while the greeting (CAPABILITY code: %v) was in flight never returned:\n%s%s", greetCaps, describeAlive(res), res.WaitCycle)
+	}
+	for _, p := range res.Panics {
+		r.Violate("panic", panicClass(p), "%s", p)
+	}
+}
+
 func runC13(r *R) {
 	t := r.P
+	if t.Choose(6) == 5 {
+		runC13Greeting(r)
+		return
+	}
 	ncallers := 2 + t.Choose(5)
 	capsVariant := t.Choose(4)
 	netMode := t.Choose(4)
